@@ -153,17 +153,26 @@ def handle0 : Handler := fun input impl =>
     else if impl == "REJECT" then ("-", "fail:validation:rejected a valid profile")
     else if impl == "TOOMANY" then ("-", judgeTooMany parts)
     else if impl == "HANG" then ("-", "fail:hang:the schedule did not finish")
+    else if impl.startsWith "PANIC" then ("-", s!"fail:panic:{impl.take 160}")
     else if sumI (parts.map fun p => p.countRange.2) > int64Max then ("-", "skip:more-than-int64-operations")
     else if impl.startsWith "LEFTONLY " then ("-", judgeLeftOnly parts (parseKV (impl.drop 9).toString))
     else
       match parseObs (parseKV impl) with
       | some obs =>
+        let v :=
           match getI? (parseKV impl) "slack" with
           | some slack =>
               match rebase parts slack (getI? (parseKV impl) "sest") obs with
-              | .ok obs' => ("-", judge parts obs')
-              | .error e => ("-", e)
-          | none => ("-", judge parts obs)
+              | .ok obs' => judge parts obs'
+              | .error e => e
+          | none => judge parts obs
+        -- Left() asked while one consumer drains the profile: what is left is what was there minus what was handed out
+        match lookup (parseKV impl) "leftmid" with
+        | some lm =>
+            if v == "ok" then
+              ("-", s!"fail:left:Left() while draining (operations handed out : Left()) = {lm}, Left() before start = {obs.left0}")
+            else ("-", v)
+        | none => ("-", v)
       | none => ("-", s!"fail:crash:unparsable observation {impl.take 80}")
 
 /-- `warm=1` cases (another profile of the same kind was decoded earlier in the same process) report their failures
